@@ -209,6 +209,8 @@ pub struct Recorder {
     pub excluded: BTreeMap<String, u64>,
     /// set while proptest is shrinking: nothing is counted
     pub frozen: bool,
+    /// discovery mode (PV_COLLECT=1, never used by registered checks): signature -> first example
+    pub collected: BTreeMap<String, (u64, String)>,
 }
 
 impl Recorder {
@@ -269,6 +271,10 @@ impl Recorder {
             if self.samples.len() < 12 {
                 self.samples.push(s);
             }
+        }
+        for (k, (n, ex)) in o.collected {
+            let e = self.collected.entry(k).or_insert((0, ex));
+            e.0 += n;
         }
     }
 }
@@ -423,7 +429,7 @@ pub fn judge(prop: &dyn Prop, payload: &Payload, tier: Tier, rec: &mut Recorder)
         Payload::Tape(t) => prop.run_tape(t, tier, rec),
         Payload::Item(i) => prop.run_item(*i, tier, rec),
     });
-    match r {
+    let r = match r {
         Ok(r) => r,
         Err(p) => {
             // a panic that escaped the property's own guards: either harness bug or patronus panic
@@ -432,7 +438,21 @@ pub fn judge(prop: &dyn Prop, payload: &Payload, tier: Tier, rec: &mut Recorder)
                 format!("panic at {}:{}: {}", p.file, p.line, p.msg),
             ))
         }
+    };
+    if collect_mode() {
+        if let Err(f) = r {
+            if !rec.frozen {
+                let e = rec.collected.entry(f.sig.clone()).or_insert((0, f.detail.clone()));
+                e.0 += 1;
+            }
+            return Ok(());
+        }
     }
+    r
+}
+
+pub fn collect_mode() -> bool {
+    std::env::var("PV_COLLECT").is_ok()
 }
 
 pub struct RunOutcome {
@@ -550,9 +570,14 @@ pub fn run_check(prop: Arc<dyn Prop>, tier: Tier) -> RunOutcome {
                 let mut runner = TestRunner::new_with_rng(cfg, rng);
                 let last_fail: RefCell<Option<Failure>> = RefCell::new(None);
                 let failed = std::cell::Cell::new(false);
-                let result = runner.run(&pvec(any::<u8>(), 0..=max_tape), |tape| {
+                let no_shrink = std::cell::Cell::new(false);
+                let min_tape = max_tape / 8;
+                let result = runner.run(&pvec(any::<u8>(), min_tape..=max_tape), |tape| {
                     if stop.load(Ordering::Relaxed) && !failed.get() {
                         return Ok(()); // another worker found a violation: finish fast
+                    }
+                    if no_shrink.get() {
+                        return Ok(()); // hangs are not shrunk (every attempt would cost the watchdog time)
                     }
                     let mut r = rec.borrow_mut();
                     r.frozen = failed.get();
@@ -568,6 +593,9 @@ pub fn run_check(prop: Arc<dyn Prop>, tier: Tier) -> RunOutcome {
                             } else {
                                 failed.set(true);
                                 stop.store(true, Ordering::Relaxed);
+                                if fail.sig.starts_with("hang/") {
+                                    no_shrink.set(true);
+                                }
                                 let sig = fail.sig.clone();
                                 *last_fail.borrow_mut() = Some(fail);
                                 Err(TestCaseError::fail(sig))
@@ -580,11 +608,15 @@ pub fn run_check(prop: Arc<dyn Prop>, tier: Tier) -> RunOutcome {
                     let mut scratch = Recorder::new();
                     scratch.frozen = true;
                     let payload = Payload::Tape(tape);
-                    let fail = match judge(prop.as_ref(), &payload, tier, &mut scratch) {
-                        Err(f) => f,
-                        Ok(()) => last_fail.borrow().clone().unwrap_or_else(|| {
-                            Failure::new("harness/flaky", "minimal case passed on re-run")
-                        }),
+                    let fail = if no_shrink.get() {
+                        last_fail.borrow().clone().unwrap()
+                    } else {
+                        match judge(prop.as_ref(), &payload, tier, &mut scratch) {
+                            Err(f) => f,
+                            Ok(()) => last_fail.borrow().clone().unwrap_or_else(|| {
+                                Failure::new("harness/flaky", "minimal case passed on re-run")
+                            }),
+                        }
                     };
                     founds.lock().unwrap().push(Found { failure: fail, payload });
                 }
@@ -670,6 +702,12 @@ pub fn check_main(prop: Arc<dyn Prop>, tier: Tier) -> i32 {
             .map(|k| k.what.clone())
             .unwrap_or_default();
         println!("KNOWN-FINDING: property={} {} [{}] (hit {} times)", prop.id(), what, sig, n);
+    }
+    for (sig, (n, ex)) in out.rec.collected.iter() {
+        println!("COLLECTED x{} {}", n, sig);
+        for l in ex.lines().take(3) {
+            println!("      {}", l);
+        }
     }
     println!(
         "{} {}: evaluations={} distinct_nontrivial={} violations={} wall={:.1}s",
